@@ -334,10 +334,14 @@ class Interp(OpsMixin, BuiltinsMixin):
     def assign(self, target, v, env):
         if isinstance(target, ast.Name):
             lm = getattr(self.c, "local_models", None)
-            if lm and target.id in lm and self.call_depth == 0 and isinstance(v, (SDict, SList)) and not v.items:
-                # contract-level abstraction of a local container that starts empty (a dict with symbolic keys as arrays,
-                # a list as a ghost multiset): the model object replaces the empty literal
-                v = lm[target.id](self)
+            if lm and target.id in lm and self.call_depth == 0 and isinstance(v, (SDict, SList)):
+                # contract-level abstraction of a local container (a dict with symbolic keys as arrays, a list as a ghost
+                # multiset): the model object replaces the literal; a factory taking two arguments receives the initial items
+                f = lm[target.id]
+                if f.__code__.co_argcount >= 2:
+                    v = f(self, v)
+                elif not v.items:
+                    v = f(self)
             env.set(target.id, v)
         elif isinstance(target, (ast.Tuple, ast.List)):
             items = self.unpack(v, len(target.elts))
